@@ -39,7 +39,7 @@ func init() {
 					u = append(u, fmt.Sprintf("directive combination %d never compiled", o))
 				}
 			}
-			for _, c := range []string{"snapshots_compared", "repeat_compilations", "shuffled_compilations", "aliasing_probes_copyconfig", "aliasing_probes_extendconf", "nil_map_configs", "big_list_constants", "undefined_mode_sources", "infix_sources", "sources_with_plain_comment_before_directive", "compile_errors_snapshotted", "nil_config_compilations", "edited_config_compilations"} {
+			for _, c := range []string{"snapshots_compared", "repeat_compilations", "shuffled_compilations", "aliasing_probes_copyconfig", "aliasing_probes_extendconf", "nil_map_configs", "big_list_constants", "undefined_mode_sources", "infix_sources", "sources_with_plain_comment_before_directive", "compile_errors_snapshotted", "nil_config_compilations", "edited_config_compilations", "other_config_registration_probes"} {
 				if m.C(c) == 0 {
 					u = append(u, c+" = 0")
 				}
@@ -341,6 +341,7 @@ func c08Run(w *W, idx int) {
 	}
 	c08Aliasing(w, r, cases[0])
 	c08NilConfig(w, r)
+	c08OtherConfigs(w, r)
 	// The caller edits its Config between two compilations (same object): the second compilation is a function of the
 	// new contents, i.e. it gives what an equal Config that was never compiled with gives.
 	for i, c := range cases {
@@ -644,5 +645,50 @@ func c08Race(w *W, idx int) {
 		if s := configSnapshot(c.cc); s != snaps[i] {
 			w.Fail("compile-modified-callers-config", "concurrent Compile calls changed the shared Config\nsource: %q\nbefore:\n%s\nafter:\n%s", firstN(c.src, 800), snaps[i], s)
 		}
+	}
+}
+
+// c08OtherConfigs: what Compile makes of (config, source) does not depend on what has been registered in other,
+// unrelated Config objects of the same process (operator names - also symbolic ones -, variables, constants).
+func c08OtherConfigs(w *W, r *rand.Rand) {
+	names := []string{"<>", "=~", "**", "<=>", "~", "@", "myop", "_op", "op.x", "Ünï", "=/=", "<<", ">>", "^", "~=", "?", ":=", "->", "<-", "|>", "$", "#", "++", "--", "%%", "<~", "~>", "!!", "??", "::"}
+	name := names[r.Intn(len(names))]
+	op := func(*eval.Ctx, []eval.Value) (eval.Value, error) { return true, nil }
+	optimize := r.Intn(2) == 0
+	mkA := func() *eval.Config {
+		a := eval.NewConfig(eval.Optimizations(optimize))
+		a.VariableKeyMap["i0"] = 1
+		a.OperatorMap[name] = op // stored directly, the way a Config literal does
+		return a
+	}
+	srcs := []string{fmt.Sprintf("(%s i0 2)", name), fmt.Sprintf("(and (%s i0 2) true)", name), fmt.Sprintf("(other_%d i0)", r.Intn(3)), "(+ i0 newvar)", "(= i0 NEWCONST)"}
+	src := srcs[r.Intn(len(srcs))]
+	comp := func(cc *eval.Config) string {
+		e, co := compileGuard(cc, src)
+		w.Evals++
+		switch {
+		case co.Panic != nil:
+			return fmt.Sprint("panic: ", co.Panic)
+		case co.Err != nil:
+			return "error"
+		}
+		d, _ := dumpGuard(e)
+		return "ok: " + d
+	}
+	before := comp(mkA())
+	// an unrelated Config registers the same names through every registration entry point
+	b := eval.NewConfig()
+	_ = eval.RegisterOperator(b, name, op) // (only this case's name: later cases probe the others afresh)
+	for i := 0; i < 3; i++ {
+		_ = eval.RegisterOperator(b, fmt.Sprintf("other_%d", i), op)
+	}
+	eval.GetOrRegisterKey(b, "newvar")
+	b.ConstantMap["NEWCONST"] = int64(1)
+	eval.RegVarAndOp(map[string]interface{}{"newvar": 1, name: op})(b)
+	compileGuard(b, src)
+	after := comp(mkA())
+	w.Inc("other_config_registration_probes")
+	if before != after {
+		w.Fail("compile-depends-on-other-configs", "Compile(config, %q) gave %q; after an unrelated Config registered operators/variables/constants of the same names it gives %q for an equal config", src, firstN(before, 300), firstN(after, 300))
 	}
 }
